@@ -1,0 +1,159 @@
+//! Verification hooks. Compiled only with `--cfg sonic_rs_verif`; never part of a normal build.
+//!
+//! A deterministic-simulation harness installs a table of plain function pointers. Without an
+//! installed table every hook is a no-op and [`AtomicPtr`] forwards to the real atomic, so the
+//! behaviour is the shipped one.
+
+use std::sync::atomic::{AtomicPtr as StdAtomicPtr, Ordering};
+
+/// Function table installed by the harness.
+pub struct Hooks {
+    /// A point where the scheduler may switch to another simulated thread.
+    pub sched_point: fn(site: u16),
+    /// Asked before every `compare_exchange_weak`: `true` makes it fail spuriously.
+    pub weak_cas_spurious: fn(site: u16) -> bool,
+    /// Bookkeeping events (arena created / dropped, cache race lost, ...).
+    pub event: fn(kind: u8, arg: usize),
+}
+
+static HOOKS: StdAtomicPtr<Hooks> = StdAtomicPtr::new(std::ptr::null_mut());
+
+/// Install (or with `None` remove) the hook table.
+pub fn install(hooks: Option<&'static Hooks>) {
+    let p = match hooks {
+        Some(h) => h as *const Hooks as *mut Hooks,
+        None => std::ptr::null_mut(),
+    };
+    HOOKS.store(p, Ordering::SeqCst);
+}
+
+#[inline]
+fn hooks() -> Option<&'static Hooks> {
+    let p = HOOKS.load(Ordering::Acquire);
+    if p.is_null() {
+        None
+    } else {
+        Some(unsafe { &*p })
+    }
+}
+
+// sites: atomic operations of `LazyValue`'s cache
+pub const SITE_LAZY: u16 = 0;
+// sites: atomic operations of `OwnedLazyValue`'s cache
+pub const SITE_OWNED: u16 = 16;
+pub const OP_LOAD: u16 = 0;
+pub const OP_CAS: u16 = 1;
+pub const OP_CAS_WEAK: u16 = 2;
+// sites: arena reference counting in value/node.rs
+pub const SITE_ARENA_INC: u16 = 32;
+pub const SITE_ARENA_DEC: u16 = 33;
+pub const SITE_VALUE_CLONE: u16 = 34;
+pub const SITE_MAKE_MUT: u16 = 35;
+
+// events
+pub const EV_ARENA_NEW: u8 = 1;
+pub const EV_ARENA_DROP: u8 = 2;
+pub const EV_CAS_LOST: u8 = 3;
+pub const EV_CAS_SPURIOUS: u8 = 4;
+pub const EV_TLS_REUSE: u8 = 5;
+pub const EV_TLS_HEAP_FALLBACK: u8 = 6;
+pub const EV_CAS_WON: u8 = 7;
+pub const EV_LOAD_HIT: u8 = 8;
+
+#[inline]
+pub fn sched_point(site: u16) {
+    if let Some(h) = hooks() {
+        (h.sched_point)(site)
+    }
+}
+
+#[inline]
+pub fn weak_cas_spurious(site: u16) -> bool {
+    match hooks() {
+        Some(h) => (h.weak_cas_spurious)(site),
+        None => false,
+    }
+}
+
+#[inline]
+pub fn event(kind: u8, arg: usize) {
+    if let Some(h) = hooks() {
+        (h.event)(kind, arg)
+    }
+}
+
+/// Drop-in for `std::sync::atomic::AtomicPtr` (only the methods the crate uses) that reports
+/// every operation to the scheduler first. `SITE` tells the two users apart.
+#[repr(transparent)]
+pub struct AtomicPtr<T, const SITE: u16>(StdAtomicPtr<T>);
+
+pub type LazyAtomicPtr<T> = AtomicPtr<T, SITE_LAZY>;
+pub type OwnedAtomicPtr<T> = AtomicPtr<T, SITE_OWNED>;
+
+impl<T, const SITE: u16> AtomicPtr<T, SITE> {
+    #[inline]
+    pub const fn new(p: *mut T) -> Self {
+        Self(StdAtomicPtr::new(p))
+    }
+
+    #[inline]
+    pub fn get_mut(&mut self) -> &mut *mut T {
+        self.0.get_mut()
+    }
+
+    #[inline]
+    pub fn load(&self, order: Ordering) -> *mut T {
+        sched_point(SITE + OP_LOAD);
+        let p = self.0.load(order);
+        if !p.is_null() {
+            event(EV_LOAD_HIT, SITE as usize);
+        }
+        p
+    }
+
+    #[inline]
+    pub fn compare_exchange(
+        &self,
+        current: *mut T,
+        new: *mut T,
+        success: Ordering,
+        failure: Ordering,
+    ) -> Result<*mut T, *mut T> {
+        sched_point(SITE + OP_CAS);
+        let r = self.0.compare_exchange(current, new, success, failure);
+        event(
+            if r.is_ok() { EV_CAS_WON } else { EV_CAS_LOST },
+            SITE as usize,
+        );
+        r
+    }
+
+    #[inline]
+    pub fn compare_exchange_weak(
+        &self,
+        current: *mut T,
+        new: *mut T,
+        success: Ordering,
+        failure: Ordering,
+    ) -> Result<*mut T, *mut T> {
+        sched_point(SITE + OP_CAS_WEAK);
+        if weak_cas_spurious(SITE + OP_CAS_WEAK) {
+            // what an LL/SC machine may do: fail although the value matched, and hand back
+            // the value it saw.
+            event(EV_CAS_SPURIOUS, SITE as usize);
+            return Err(self.0.load(failure));
+        }
+        let r = self.0.compare_exchange_weak(current, new, success, failure);
+        event(
+            if r.is_ok() { EV_CAS_WON } else { EV_CAS_LOST },
+            SITE as usize,
+        );
+        r
+    }
+}
+
+impl<T, const SITE: u16> std::fmt::Debug for AtomicPtr<T, SITE> {
+    fn fmt(&self, f: &mut std::fmt::Formatter<'_>) -> std::fmt::Result {
+        std::fmt::Debug::fmt(&self.0, f)
+    }
+}
